@@ -19,7 +19,7 @@ def plan(tier):
         regimes = [("dense", 1, 5), ("bounded", 3, 6, 8), ("near", 2, 3), ("far", 1, 4)]
         menu = MRTS_Q
     else:
-        regimes = [("dense", 1, 8), ("bounded", 3, 9, 12), ("near", 2, 4), ("far", 1, 6)]
+        regimes = [("dense", 1, 7), ("bounded", 3, 8, 11), ("near", 2, 4), ("far", 1, 6)]
         menu = MRTS_T
     desc, total = pairs.describe_regimes(regimes, 2)
     return {
